@@ -23,6 +23,11 @@ type Snapshot struct {
 	Height   int64             `json:"h"`
 	Time     int64             `json:"t"` // block time, unix seconds
 	AppHash  string            `json:"apphash"`
+	// BlockHash: hash of the (fabricated) block of this height, as the next header's LastBlockID carries it
+	BlockHash string           `json:"block_hash,omitempty"`
+	// SessionSeed: SHA3-256 over the protobuf encoding of this block's header as a node rebuilds it from its block store
+	// (the "block hash" sessions starting at this height are seeded with after the codec upgrade)
+	SessionSeed string         `json:"session_seed,omitempty"`
 	Txs      []TxRes           `json:"txs"`
 	ValUpd   []ValUpd          `json:"valupd,omitempty"`
 	Proposer string            `json:"proposer,omitempty"` // consensus address of this block's proposer
